@@ -3,7 +3,15 @@ from harness import C10
 
 
 def main(tier):
-    return C10.main_for('C11', tier)
+    # the simulated-energy clause rests on the proved inequality AND on the trajectory being the exact response of that model: the
+    # integrator (scipy.signal.lsim) is trusted numerical code, its wiring is checked with recording stubs (harness/C12.py)
+    from harness import C12
+    return C10.main_for('C11', tier, extra_workers=C12.wiring_extra(tier, 'C11', n_quick=6, n_thorough=60))
+
+
+def replay(v):
+    from harness import C12
+    return C12.replay(dict(v), pid='C11')
 
 
 worker = C10.worker
